@@ -512,7 +512,9 @@ func registerHeapWF(name string, t types.Type, isArr bool) {
 		if f.S == "true" {
 			return
 		}
-		addAxiom("heapwf "+name, []string{h}, fmt.Sprintf("(forall ((r Int) (i Int)) (! %s :pattern ((select (select %s r) i))))", f.S, h))
+		// closed world for the objects that exist at entry only: an object allocated later may be described by a
+		// callee's postcondition through the same heap symbol and may well point to other new objects
+		addAxiom("heapwf "+name, []string{h}, fmt.Sprintf("(forall ((r Int) (i Int)) (! (=> (< r %s) %s) :pattern ((select (select %s r) i))))", bound.S, f.S, h))
 		return
 	}
 	e := T{"(select " + h + " r)", sortOf(t)}
@@ -520,7 +522,7 @@ func registerHeapWF(name string, t types.Type, isArr bool) {
 	if f.S == "true" {
 		return
 	}
-	addAxiom("heapwf "+name, []string{h}, fmt.Sprintf("(forall ((r Int)) (! %s :pattern ((select %s r))))", f.S, h))
+	addAxiom("heapwf "+name, []string{h}, fmt.Sprintf("(forall ((r Int)) (! (=> (< r %s) %s) :pattern ((select %s r))))", bound.S, f.S, h))
 }
 
 func (s *State) mapDom(m types.Type) T {
